@@ -242,7 +242,7 @@ package forwarder
 //@   ensures [perio] err == nil && ok(req.URRID()) && ok(req.ReportingTriggers()) && len(val(req.ReportingTriggers())) >= 1 ==>
 //@                     ((val(req.ReportingTriggers())[0] & 1 != 0) == (RuleKey(lSeid, 4, uint64(val(req.URRID()))) in PERIOREQ))
 //@   modifies *
-//@   serves C03 C10 C07
+//@   serves C03 C07
 //@   at call append#3:
 //@     assert [period] len(arg1) == 1 && arg1[0].Type == gtp5gnl.URR_MEASUREMENT_PERIOD && arg1[0].Value == iface(nl.AttrU32(uint32(v / 1000000000)))
 //@   at call UpdateURROID:
